@@ -341,6 +341,46 @@ example :
     let s := run true (init [[]]) [.drv .poll, .drv .pce, .drv .pce, .drv (.bidi none)]
     s.cell = some (.internal 259 0) ∧ s.closes = [(259, 0)] ∧ s.drets = [.localApp 259 0] := by decide
 
+/-! ## the application drops the driver (reading R-05) -/
+
+/-- **`Drop` never touches the first close call.**  `Drop for server::Connection` calls
+    `close(H3_NO_ERROR)` unconditionally (`H3.Setup.dropConn`).  The property's "the QUIC connection
+    is closed with exactly that error's code" speaks about the call that closes the connection, the
+    first one (reading R-05: a `close` on a closed QUIC connection changes nothing the peer sees).
+    Whatever the driver's error state: the drop appends at most one call (H3_NO_ERROR = 0x0100, server
+    only — the client's driver has no `Drop`) and leaves `handled` alone; a first close call there
+    was stays the first; and once the driver has acted on an error `e` (`raise` on a driver that had
+    none), the calls are `closeCode e` followed by the drop's — so for an error detected locally the
+    first call, the one that closes the connection, carries exactly that error's code, and for an
+    error of the peer / the transport the drop's call is the only one. -/
+theorem C05_drop_keeps_first_close (server : Bool) (d : H3.Setup.Drv) :
+    (H3.Setup.dropConn server d).closes = d.closes ++ (if server then [0x0100] else []) ∧
+    (H3.Setup.dropConn server d).handled = d.handled ∧
+    (∀ c, d.closes.head? = some c → (H3.Setup.dropConn server d).closes.head? = some c) ∧
+    (∀ e, d.handled = none → d.closes = [] →
+      (H3.Setup.dropConn server (H3.Setup.raise d e).1).closes
+        = H3.Setup.closeCode e ++ (if server then [0x0100] else []) ∧
+      (∀ c t, closeOf e = some (c, t) →
+        (H3.Setup.dropConn server (H3.Setup.raise d e).1).closes.head? = some c)) := by
+  refine ⟨?_, ?_, ?_, ?_⟩
+  · cases server <;> simp [H3.Setup.dropConn, H3.Gen.Consts.CODE_H3_NO_ERROR]
+  · cases server <;> simp [H3.Setup.dropConn]
+  · intro c hc
+    cases hcl : d.closes with
+    | nil => rw [hcl] at hc; cases hc
+    | cons a r => rw [hcl] at hc; cases server <;> simp_all [H3.Setup.dropConn]
+  · intro e hn hcl
+    refine ⟨?_, ?_⟩
+    · cases server <;> simp [H3.Setup.dropConn, H3.Setup.raise, hn, hcl, H3.Gen.Consts.CODE_H3_NO_ERROR]
+    · intro c t hce
+      cases server <;> simp [H3.Setup.dropConn, H3.Setup.raise, hn, hcl, H3.Setup.closeCode, hce]
+
+-- the witness of R-05 on the model: H3_FRAME_UNEXPECTED handled, then the server object is dropped:
+-- `closed=[261,256]`; a peer's close, then the drop: `[256]`; a client: nothing added
+example : (H3.Setup.dropConn true (H3.Setup.raise {} (.internal 261 0)).1).closes = [261, 256] ∧
+    (H3.Setup.dropConn true (H3.Setup.raise {} (.quic (.appClose 256))).1).closes = [256] ∧
+    (H3.Setup.dropConn false (H3.Setup.raise {} (.internal 259 0)).1).closes = [259] := by decide
+
 /-! ## `shutdown` (D-05s, repaired): the driver's remaining entry point reports the error too -/
 
 /-- **`shutdown` reports the connection's error.**  `ConnectionInner::shutdown` starts with
